@@ -27,12 +27,19 @@ except SystemExit as exc:
 
 
 def _run(path):
-    env = dict(os.environ, PYTHONPATH=source.REPO, PYTHONHASHSEED="0")
+    # the scripts create scratch files with tempfile: they get a private TMPDIR that is removed afterwards
+    import shutil
+    import tempfile
+
+    scratch = tempfile.mkdtemp(prefix="witness")
+    env = dict(os.environ, PYTHONPATH=source.REPO, PYTHONHASHSEED="0", TMPDIR=scratch)
     try:
         p = subprocess.run([VENV_PY, path], capture_output=True, text=True, env=env, cwd="/", timeout=600)
         return path, p.returncode, (p.stdout + p.stderr)[-1500:]
     except subprocess.TimeoutExpired:
         return path, 124, "timeout after 600 s"
+    finally:
+        shutil.rmtree(scratch, ignore_errors=True)
 
 
 def run(chk):
